@@ -7,6 +7,12 @@ tests = sys.argv[2] if len(sys.argv) > 2 else "tests/"
 suffix = sys.argv[3] if len(sys.argv) > 3 else "ok"
 p = next(json.loads(l) for l in open("/verif/properties.jsonl") if json.loads(l)["id"] == pid)
 d = "/tmp/seed_%s%s" % (pid, suffix)
+push = (" This time a pure refactor is NOT enough: change OBSERVABLE behaviour in as many ways as the statement permits while it still "
+        "holds - timing or ordering of things the statement does not order, what happens on inputs or situations outside the "
+        "quantified domain, values and state the statement does not mention, how often and when internal operations (sends, reads, "
+        "parser resumptions, clock readings, database transactions) happen, which of several allowed outcomes is chosen. Think of a "
+        "maintainer who legitimately decides to do it differently. State precisely in meta.json why each difference is permitted by the "
+        "statement.") if suffix.endswith("2") else ""
 print(f"""You are working in a scratch git worktree of the Python library ioflo/hio at {d} (library source under {d}/src/hio, its tests under {d}/tests). Work ONLY inside {d}. Do not read, touch or depend on /repo, /verif or any other checkout.
 
 Environment facts:
@@ -20,7 +26,7 @@ A property of hio that users rely on:
   Quantified over: {p['quantifier']['text']}
   Anchored in: {', '.join(p['anchors']['files'])}
 
-Your task is the opposite of bug seeding: make ONE realistic maintenance change to the code this property is anchored in such that the property STILL HOLDS exactly as stated, the package still imports, and the existing tests listed above give exactly the same pass/fail results - but the implementation differs as much as a real refactor or legitimate behaviour change would. Good candidates: restructure the relevant function(s) (different control flow, different internal data structure, hoisted or inlined helpers, early returns), change something the statement leaves open (the type or message of an exception raised for rejected input, a return value the statement does not mention, log output, the order of operations the statement does not order, internal attribute names or extra bookkeeping attributes, when exactly an internal buffer is trimmed, tie-breaking where the statement allows several outcomes), or a performance rewrite. The change should be substantial enough (typically 10-60 changed lines) that a test which is over-fitted to the current implementation would notice, while a test of the property as stated must not. Do NOT change anything the statement does constrain, and do not edit tests.
+Your task is the opposite of bug seeding: make ONE realistic maintenance change to the code this property is anchored in such that the property STILL HOLDS exactly as stated, the package still imports, and the existing tests listed above give exactly the same pass/fail results - but the implementation differs as much as a real refactor or legitimate behaviour change would. Good candidates: restructure the relevant function(s) (different control flow, different internal data structure, hoisted or inlined helpers, early returns), change something the statement leaves open (the type or message of an exception raised for rejected input, a return value the statement does not mention, log output, the order of operations the statement does not order, internal attribute names or extra bookkeeping attributes, when exactly an internal buffer is trimmed, tie-breaking where the statement allows several outcomes), or a performance rewrite. The change should be substantial enough (typically 10-60 changed lines) that a test which is over-fitted to the current implementation would notice, while a test of the property as stated must not. Do NOT change anything the statement does constrain, and do not edit tests.{push}
 
 Deliverables, all inside {d}/seed_out/ :
   1. patch.diff  - `git diff` of your source change only (it must apply with `git apply` to a clean checkout of this worktree's HEAD).
